@@ -735,56 +735,88 @@ theorem writeHeader_finished (st : Nat) (s : St) : (writeHeader st s).finished =
 theorem writeHeader_of_started (st : Nat) (s : St) (h : s.started = true) : writeHeader st s = s := by
   unfold writeHeader; simp [h]
 
+theorem whileBuilding_live (s : St) : (whileBuilding s).live = s.live := by
+  unfold whileBuilding; split <;> rfl
+theorem whileBuilding_delivered (s : St) : (whileBuilding s).delivered = s.delivered := by
+  unfold whileBuilding; split <;> rfl
+theorem whileBuilding_started (s : St) : (whileBuilding s).started = s.started := by
+  unfold whileBuilding; split <;> rfl
+theorem whileBuilding_finished (s : St) : (whileBuilding s).finished = s.finished := by
+  unfold whileBuilding; split <;> rfl
+theorem whileBuilding_attached (s : St) : (whileBuilding s).attached = s.attached := by
+  unfold whileBuilding; split <;> rfl
+theorem whileBuilding_hdr (s : St) : (whileBuilding s).hdr = s.hdr := by
+  unfold whileBuilding; split <;> rfl
+theorem whileBuilding_of_not_live (s : St) (h : s.live = false) : whileBuilding s = s := by
+  unfold whileBuilding; simp [h]
+
 /-- the view of one delivery at the end is its view at completion -/
 def Fin (s : St) (d : Delivery) : Prop := viewAtEnd s d = d.snap
 
-/-- every delivery made by the end of the response (`tryFinish`) is final, and the response
-object is frozen from then on -/
+/-- a delivered trace either does not point to the middleware's response object, or the builder
+has let go of the trace and the response object is what the delivery recorded: nothing the
+handed-over trace refers to is written after the hand-off -/
 def Inv (s : St) : Prop :=
-  ∀ d ∈ s.delivered, d.snap.closer.isRespEnd = true → s.finished = true ∧ s.started = true ∧ Fin s d
+  (s.attached = true → s.started = true) ∧
+  ∀ d ∈ s.delivered, d.att = false ∨ (s.started = true ∧ s.live = false ∧ d.snap.resp = some s.resp)
 
-theorem inv_init : Inv init := by intro d hd; simp [init] at hd
+theorem inv_init : Inv init := ⟨fun h => by simp [init] at h, fun d hd => by simp [init] at hd⟩
 
-theorem inv_close (c : Closer) (s : St) (hc : c.isRespEnd = false) (h : Inv s) : Inv (close c s) := by
+theorem inv_fin (s : St) (h : Inv s) : ∀ d ∈ s.delivered, Fin s d := by
+  intro d hd
+  unfold Fin viewAtEnd
+  rcases h.2 d hd with ha | ⟨_, _, hr⟩
+  · simp [ha]
+  · split
+    · rw [← hr]
+    · rfl
+
+theorem inv_close (c : Closer) (s : St) (h : Inv s) : Inv (close c s) := by
   unfold close
   split
-  · intro d hd hr
+  · rename_i hl
+    refine ⟨h.1, ?_⟩
+    intro d hd
     simp only [List.mem_append, List.mem_singleton] at hd
     rcases hd with hd | hd
-    · exact h d hd hr
-    · subst hd; simp [hc] at hr
+    · rcases h.2 d hd with ha | ⟨_, hnl, _⟩
+      · exact Or.inl ha
+      · rw [hl] at hnl; simp at hnl
+    · subst hd
+      cases ha : s.attached with
+      | false => exact Or.inl rfl
+      | true => exact Or.inr ⟨h.1 ha, rfl, by simp⟩
   · exact h
 
 theorem inv_writeHeader (st : Nat) (s : St) (h : Inv s) : Inv (writeHeader st s) := by
   by_cases hs : s.started = true
   · rw [writeHeader_of_started st s hs]; exact h
-  · intro d hd hr
+  · refine ⟨fun _ => writeHeader_started st s, ?_⟩
+    intro d hd
     rw [writeHeader_delivered] at hd
-    exact absurd (h d hd hr).2.1 hs
+    rcases h.2 d hd with ha | ⟨hst, _, _⟩
+    · exact Or.inl ha
+    · exact absurd hst hs
 
 theorem inv_tryFinish (c : Closer) (s : St) (h : Inv s) : Inv (tryFinish c s) := by
   unfold tryFinish
   split
   · exact h
-  · rename_i hf
-    -- nothing was delivered by the end of the response so far
-    have hnone : ∀ d ∈ s.delivered, d.snap.closer.isRespEnd = true → False :=
-      fun d hd hr => hf (h d hd hr).1
-    simp only []
-    unfold close
-    split
-    · intro d hd hr
-      simp only [List.mem_append, List.mem_singleton] at hd
-      rcases hd with hd | hd
-      · rw [writeHeader_delivered] at hd; exact (hnone d hd hr).elim
-      · subst hd
-        refine ⟨rfl, writeHeader_started 200 s, ?_⟩
-        unfold Fin viewAtEnd
-        simp only []
-        split <;> simp_all
-    · intro d hd hr
-      rw [writeHeader_delivered] at hd
-      exact (hnone d hd hr).elim
+  · apply inv_close
+    show Inv (whileBuilding (writeHeader 200 s))
+    have h1 := inv_writeHeader 200 s h
+    cases hl : (writeHeader 200 s).live with
+    | false =>
+      rw [whileBuilding_of_not_live _ hl]
+      exact h1
+    | true =>
+      refine ⟨?_, ?_⟩
+      · rw [whileBuilding_attached, whileBuilding_started]; exact h1.1
+      · intro d hd
+        rw [whileBuilding_delivered] at hd
+        rcases h1.2 d hd with ha | ⟨_, hnl, _⟩
+        · exact Or.inl ha
+        · rw [hl] at hnl; simp at hnl
 
 theorem inv_step (s : St) (a : Act) (h : Inv s) : Inv (step s a) := by
   cases a with
@@ -803,12 +835,12 @@ theorem inv_step (s : St) (a : Act) (h : Inv s) : Inv (step s a) := by
   | readErr =>
     simp only [step]; split
     · exact h
-    · exact inv_close _ _ rfl h
+    · exact inv_close _ _ h
   | closeReq =>
     simp only [step]; split
     · exact h
-    · exact inv_close _ _ rfl h
-  | cancel => exact inv_close _ _ rfl h
+    · exact inv_close _ _ h
+  | cancel => exact inv_close _ _ h
   | panic => exact h
 
 theorem inv_runActs : ∀ (acts : List Act) (s : St), Inv s → Inv (runActs s acts).1
@@ -828,7 +860,7 @@ theorem inv_runActs : ∀ (acts : List Act) (s : St), Inv s → Inv (runActs s a
 
 theorem inv_run (acts : List Act) : Inv (run acts) := by
   unfold run finish
-  exact inv_close _ _ rfl (inv_close _ _ rfl (inv_tryFinish _ _ (inv_runActs acts init inv_init)))
+  exact inv_close _ _ (inv_close _ _ (inv_tryFinish _ _ (inv_runActs acts init inv_init)))
 
 /-! exactly one delivery -/
 
@@ -869,6 +901,9 @@ theorem tryFinish_closed (c : Closer) (s : St) (h : Once s) :
     · exact h'
   · apply close_closed
     have := (once_writeHeader 200 s h).1
+    show Once0 (whileBuilding (writeHeader 200 s))
+    unfold Once0
+    rw [whileBuilding_live, whileBuilding_delivered]
     exact this
 
 theorem once_tryFinish (c : Closer) (s : St) (h : Once s) : Once (tryFinish c s) :=
@@ -914,66 +949,6 @@ theorem once_runActs : ∀ (acts : List Act) (s : St), Once s → Once (runActs 
   | .closeReq :: as, s, h => once_runActs as _ (once_step s _ h)
   | .cancel :: as, s, h => once_runActs as _ (once_step s _ h)
 
-/-! without an early end the builder holds the trace until the response ends -/
-
-def Held (s : St) : Prop :=
-  (s.live = true ∧ s.finished = false ∧ s.delivered = []) ∨
-  (s.live = false ∧ ∃ d, s.delivered = [d] ∧ d.snap.closer.isRespEnd = true)
-
-theorem held_writeHeader (st : Nat) (s : St) (h : Held s) : Held (writeHeader st s) := by
-  unfold Held
-  rw [writeHeader_live, writeHeader_finished, writeHeader_delivered]; exact h
-
-theorem held_tryFinish (c : Closer) (hc : c.isRespEnd = true) (s : St) (h : Held s) :
-    (tryFinish c s).live = false ∧ ∃ d, (tryFinish c s).delivered = [d] ∧ d.snap.closer.isRespEnd = true := by
-  rcases h with ⟨hl, hf, hd⟩ | h
-  · unfold tryFinish
-    simp only [hf, Bool.false_eq_true, if_false]
-    unfold close
-    simp only [writeHeader_live, hl, if_true, writeHeader_delivered, hd, List.nil_append]
-    exact ⟨trivial, _, rfl, hc⟩
-  · unfold tryFinish
-    split
-    · exact h
-    · unfold close
-      simp only [writeHeader_live, h.1, Bool.false_eq_true, if_false, writeHeader_delivered]
-      exact ⟨trivial, h.2⟩
-
-theorem held_step (s : St) (a : Act) (ha : isEarlyEnd a = false) (h : Held s) : Held (step s a) := by
-  cases a with
-  | set k v => exact h
-  | add k v => exact h
-  | declare names => exact h
-  | declareAdd names => exact h
-  | writeHeader st => exact held_writeHeader st s h
-  | write ok =>
-    simp only [step]
-    split
-    · exact held_writeHeader 200 s h
-    · exact Or.inr (held_tryFinish _ rfl _ (held_writeHeader 200 s h))
-  | flush => exact h
-  | readEof => exact h
-  | readErr => simp [isEarlyEnd] at ha
-  | closeReq => simp [isEarlyEnd] at ha
-  | cancel => simp [isEarlyEnd] at ha
-  | panic => exact h
-
-theorem held_runActs : ∀ (acts : List Act) (s : St), (∀ a ∈ acts, isEarlyEnd a = false) → Held s →
-    Held (runActs s acts).1
-  | [], _, _, h => h
-  | .panic :: _, _, _, h => h
-  | .set k v :: as, s, ha, h => held_runActs as _ (fun a m => ha a (by simp [m])) (held_step s _ (ha _ (by simp)) h)
-  | .add k v :: as, s, ha, h => held_runActs as _ (fun a m => ha a (by simp [m])) (held_step s _ (ha _ (by simp)) h)
-  | .declare n :: as, s, ha, h => held_runActs as _ (fun a m => ha a (by simp [m])) (held_step s _ (ha _ (by simp)) h)
-  | .declareAdd n :: as, s, ha, h => held_runActs as _ (fun a m => ha a (by simp [m])) (held_step s _ (ha _ (by simp)) h)
-  | .writeHeader st :: as, s, ha, h => held_runActs as _ (fun a m => ha a (by simp [m])) (held_step s _ (ha _ (by simp)) h)
-  | .write ok :: as, s, ha, h => held_runActs as _ (fun a m => ha a (by simp [m])) (held_step s _ (ha _ (by simp)) h)
-  | .flush :: as, s, ha, h => held_runActs as _ (fun a m => ha a (by simp [m])) (held_step s _ (ha _ (by simp)) h)
-  | .readEof :: as, s, ha, h => held_runActs as _ (fun a m => ha a (by simp [m])) (held_step s _ (ha _ (by simp)) h)
-  | .readErr :: as, s, ha, h => held_runActs as _ (fun a m => ha a (by simp [m])) (held_step s _ (ha _ (by simp)) h)
-  | .closeReq :: as, s, ha, h => held_runActs as _ (fun a m => ha a (by simp [m])) (held_step s _ (ha _ (by simp)) h)
-  | .cancel :: as, s, ha, h => held_runActs as _ (fun a m => ha a (by simp [m])) (held_step s _ (ha _ (by simp)) h)
-
 theorem close_of_not_live (c : Closer) (s : St) (h : s.live = false) : close c s = s := by
   unfold close; simp [h]
 
@@ -986,7 +961,9 @@ theorem nodup_step (s : St) (a : Act) (h : NodupKeys s.hdr) : NodupKeys (step s 
   have htf : ∀ c (s : St), (tryFinish c s).hdr = s.hdr := by
     intro c s; unfold tryFinish; split
     · rfl
-    · rw [hcl]; exact hwh 200 s
+    · rw [hcl]
+      show (whileBuilding (writeHeader 200 s)).hdr = s.hdr
+      rw [whileBuilding_hdr]; exact hwh 200 s
   cases a with
   | set k v => exact nodupKeys_hset _ _ _ h
   | add k v => exact nodupKeys_hset _ _ _ h
